@@ -6,6 +6,8 @@ import (
 	"strings"
 	"time"
 
+	"github.com/beevik/etree"
+
 	"verifharness/idp"
 	"verifharness/orch"
 	"verifharness/world"
@@ -114,15 +116,31 @@ func (Cond) Run(c *orch.Case) *orch.Outcome {
 	}
 	el := b.AssertionEl(spec, false)
 	root.AddChild(el)
+	els := []*etree.Element{el}
 	// a second assertion with contrary conditions: warnings must come from the first
 	if c.Seed%2 == 0 {
 		s2 := world.Content("GA2")
 		s2.Conditions.AudRestr = [][]string{{"https://other.example/audience"}}
+		if len(in.Ars) > 0 {
+			s2.Conditions.AudRestr = [][]string{{world.Audience}}
+		}
 		s2.Conditions.OneTimeUse = !in.Otu
-		root.AddChild(b.AssertionEl(s2, false))
+		if !in.Proxy.Present {
+			s2.Conditions.Proxy = &idp.Proxy{Count: idp.I(3), Audiences: []string{"https://other.example/audience"}}
+		}
+		e2 := b.AssertionEl(s2, false)
+		root.AddChild(e2)
+		els = append(els, e2)
 	}
 	b.Decorate(root)
-	mustSign(root, idp.DefaultSig(w.IdpA.Key, w.IdpA.DER))
+	// the IdP signs the Response, or every assertion on its own (by seed)
+	if (c.Seed/2)%2 == 0 {
+		mustSign(root, idp.DefaultSig(w.IdpA.Key, w.IdpA.DER))
+	} else {
+		for _, e := range els {
+			mustSign(e, idp.DefaultSig(w.IdpA.Key, w.IdpA.DER))
+		}
+	}
 	doc := idp.Serialize(root, lay, rng)
 	enc := idp.Encode(doc, c.Seed%3 == 0)
 	sp := w.NewSP()
